@@ -70,7 +70,7 @@ func VerifC03_Routing() {
 		ing.Spec.Rules[0].HTTP = &networking.HTTPIngressRuleValue{Paths: []networking.HTTPIngressPath{{
 			Path: r.path,
 			Backend: networking.IngressBackend{Service: &networking.IngressServiceBackend{
-				Name: r.svc, Port: networking.ServiceBackendPort{Number: 8080},
+				Name: r.svc, Port: networking.ServiceBackendPort{Number: zzSvcPort(r.svc)},
 			}},
 		}}}
 		if r.tls {
